@@ -44,9 +44,12 @@ def gen_cases(rng, n):
 
 
 def run(ctx):
-    import einx  # noqa: F401
     n = 600 if ctx.tier == "quick" else 20000
-    cases = gen_cases(ctx.rng, n)
+    run_cases(ctx, gen_cases(ctx.rng, n))
+
+
+def run_cases(ctx, cases):
+    import einx  # noqa: F401
     plans = ctx.model.batch([sx(gencalls.plan_request(c)) for c in cases])
     results = common.pmap(_work, cases)
     fam = {}
@@ -91,6 +94,6 @@ def replay(ctx, path):
                 bad = True
     print("expected (reference semantics):", data.get("expected"))
     if bad:
-        print(f"VIOLATION property=C01 replay={path}")
+        print(f"VIOLATION property={ctx.prop} replay={path}")
         return 1
     return 0
